@@ -207,8 +207,7 @@ fn main() {
             if cfg.prop == "C09" {
                 go(&props::c09::C09 { cases }, &cfg, &mut reports, &mut replayed);
             } else {
-                let accepted = cases.into_iter().filter(|c| c.expect == "ok").collect();
-                go(&props::c09::C12 { accepted }, &cfg, &mut reports, &mut replayed);
+                go(&props::c09::C12 { accepted: cases }, &cfg, &mut reports, &mut replayed);
             }
         }
         "C10" => go(&props::c10::C10, &cfg, &mut reports, &mut replayed),
